@@ -51,7 +51,7 @@ type BlockResult struct {
 	Txs        []TxResult
 	Events     []abci.Event // begin/end-block events
 	ValUpdates []abci.ValidatorUpdate
-	AppHash    []byte // working hash returned by FinalizeBlock (== committed hash)
+	AppHash    []byte      // working hash returned by FinalizeBlock (== committed hash)
 	Err        error       // FinalizeBlock returned an error (node would halt)
 	Panic      interface{} // FinalizeBlock panicked (node would crash)
 }
